@@ -1,7 +1,7 @@
 ------------------------------- MODULE Gateway -------------------------------
 (* XEXEC (growth beyond the listed properties): the SCRIPT GATEWAY of pygopherd.            *)
 (*                                                                                          *)
-(* Code abstracted (pinned tree 6c0fcc2):                                                   *)
+(* Code abstracted (pinned tree 6c0fcc2..31dac09):                                                   *)
 (*   handlers/virtual.py   Virtual.__init__: a selector is cut into the "real" part (the    *)
 (*                         file) and the "argument" part at a `?` or a `|`, and the real    *)
 (*                         part is stat()ed again                          -> Mark/Real/Args *)
